@@ -271,6 +271,99 @@ theorem q_fifo_prefix (c : Cfg) (hp : Proved c) (ops : List Op) (s : LQ) (hc : s
     (hops : ∀ op ∈ ops, noFront op = true) : poppedSeq c s ops <+: s.req ++ acceptedSeq c s ops :=
   ⟨_, q_fifo_history c hp ops s hc hops⟩
 
+/-! ### capacity over histories — also what the parallel stress class checks on the real code
+
+Every label of the concurrent system (C13) is one of these functions executed as one uninterrupted critical section
+(`Cfg.sectionsAtomic`, `Facts.lockCovered`), so a statement about all sequences of steps is a statement about all
+interleavings of whole calls. -/
+
+/-- a bounded request list never holds more than its capacity -/
+def Bounded (s : LQ) : Prop := 0 < s.reqCap → s.req.length ≤ s.reqCap
+
+theorem addReq_bounded (s : LQ) (x : Nat) (h : Bounded s) : Bounded (addReq Shape.expected s x).1 := by
+  rcases addReq_cases s x with e | e | e
+  · rw [e]
+    have hok : (addReq Shape.expected s x).2 = .ok := by rw [e]
+    have hnf := ((q_full_iff s x (by
+      unfold addReq at hok; simp only [Shape.expected, if_true] at hok
+      cases hc : s.closed <;> simp [hc] at hok ⊢)).2.1 hok)
+    intro hp
+    simp only [List.length_append, List.length_cons, List.length_nil]
+    have := h hp
+    simp only at hp
+    omega
+  · rw [e]; exact h
+  · rw [e]; exact h
+
+theorem popNow_bounded (a : Bool) (s t : LQ) (o : Out) (h : Bounded s) (hp : popNow Shape.expected a s = some (t, o)) :
+    Bounded t ∧ t.reqCap = s.reqCap := by
+  unfold popNow takeFront at hp
+  simp only [Shape.expected, if_true] at hp
+  split at hp
+  · split at hp <;> simp at hp
+    obtain ⟨rfl, _⟩ := hp; exact ⟨h, rfl⟩
+  · split at hp
+    · simp at hp; obtain ⟨rfl, _⟩ := hp; exact ⟨h, rfl⟩
+    · cases hc : s.ctrl <;> cases hr : s.req <;> simp [hc, hr] at hp
+      all_goals obtain ⟨rfl, _⟩ := hp
+      all_goals first
+        | exact ⟨h, rfl⟩
+        | (refine ⟨fun hpos => ?_, rfl⟩
+           have := h hpos
+           simp [hr] at this ⊢
+           try omega)
+
+theorem drainFor_bounded (x : Nat) : ∀ (n : Nat) (s : LQ) (acc : List Nat), Bounded s →
+    Bounded (drainFor (fun t => addReq Shape.expected t x) (popNow Shape.expected true) n s acc).1
+  | 0, s, acc, h => by simpa [drainFor] using h
+  | n + 1, s, acc, h => by
+    unfold drainFor
+    split
+    · rename_i s' v hp
+      have hb := (popNow_bounded true s s' (.val v) h hp).1
+      by_cases hf : isFullOut (addReq Shape.expected s' x).2 = true
+      · simp only [hf, if_true]
+        exact drainFor_bounded x n s' (v :: acc) hb
+      · simp only [hf, Bool.false_eq_true, if_false]
+        exact addReq_bounded s' x hb
+    · exact h
+
+/-- **Capacity, every history**: starting within the bound, no sequence of ordinary adds, `*Anyway` adds, pops, closes,
+    try-closes … (anything but a prior add, which bypasses the bound by design) ever exceeds it — for the pipe queues. -/
+theorem q_capacity_history (k : Kind) (ops : List Op) (s : LQ) (h : Bounded s)
+    (hops : ∀ op ∈ ops, ∀ x, op ≠ .prior x) : Bounded (final (stepPipe Shape.expected k) s ops) := by
+  induction ops generalizing s with
+  | nil => exact h
+  | cons op r ih =>
+    simp only [final_cons]
+    apply ih _ _ (fun o ho => hops o (by simp [ho]))
+    have hnp := hops op (by simp)
+    cases op with
+    | add x => exact addReq_bounded s x h
+    | prior x => exact absurd rfl (hnp x)
+    | addAny x rp =>
+      simp only [stepPipe, addAnyway]
+      split
+      · exact addReq_bounded s x h
+      · split
+        · exact drainFor_bounded x _ s [] h
+        · exact addReq_bounded (closeQ s) x h
+    | pop =>
+      simp only [stepPipe, orBlock]
+      cases hp : popNow Shape.expected false s with
+      | none => exact h
+      | some r => exact (popNow_bounded false s r.1 r.2 h hp).1
+    | popAnyway =>
+      simp only [stepPipe, orBlock]
+      cases hp : popNow Shape.expected true s with
+      | none => exact h
+      | some r => exact (popNow_bounded true s r.1 r.2 h hp).1
+    | close => exact h
+    | isClosed => simp only [stepPipe]; split <;> exact h
+    | size => simp only [stepPipe]; split <;> exact h
+    | waitClose => simp only [stepPipe]; split <;> exact h
+    | _ => exact h
+
 /-! ### PriQueue -/
 
 /-- `m` pops no later than `e`: higher priority, or the same priority and pushed no later -/
